@@ -188,7 +188,14 @@ def bond_energies_error_sig(e, H_bond, finite, sites=None):
     if not finite and sites is not None and isinstance(e, ValueError) and 'incompatible LegCharge' in str(e):
         # H_bond[i] (sites i-1, i) contracted with the state on sites (i, i+1): the legs differ in a mixed unit cell
         L = len(sites)
-        if any(sites[(i - 1) % L].leg != sites[(i + 1) % L].leg for i in range(L)):
+
+        def same_leg(a, b):
+            try:
+                a.leg.test_equal(b.leg)
+                return True
+            except ValueError:
+                return False
+        if any(not same_leg(sites[i], sites[(i + 1) % L]) for i in range(L)):
             return 'energy.bond_energies.infinite.evaluated_on_sites_i_i+1'
     return f'energy.bond_energies.error.{type(e).__name__}'
 
@@ -241,6 +248,11 @@ def nn_infinite_checks(M, case, real, H, n_cells, N, tol, reps, fails, facts):
             reps['calc_H_bond'] = e
         return
     if H_bond is None or all(h is None for h in H_bond):
+        return
+    if M.H_MPO.max_range is None or M.H_MPO.max_range > 1:
+        # nearest-neighbour as an operator, but a term is spelled over more sites (outer operator 'Id'): "the terms inside
+        # a window" then means different things for the bond form and the term form; not compared here
+        facts['nn_infinite_skipped_formal_range'] = True
         return
     facts['nn_infinite'] = True
     dims = [s.dim for s in lat.mps_sites()] * n_cells
@@ -313,14 +325,16 @@ def nn_infinite_checks(M, case, real, H, n_cells, N, tol, reps, fails, facts):
         return
     want = np.array([np.trace(cm.rho_window_dense(psi, 2, first=i - 1) @ cm.bond_dense(H_bond[i])) if H_bond[i] is not None
                      else 0.0 for i in range(N)])
-    shifted = np.array([np.trace(cm.rho_window_dense(psi, 2, first=i) @ cm.bond_dense(H_bond[i])) if H_bond[i] is not None
-                        else 0.0 for i in range(N)])
     if abs(np.sum(want) - e_cell) > etol:
         fails.append(('property', 'energy.H_bond.sum_mismatch',
                       f'sum of <H_bond[i]> on sites (i-1, i) = {complex(np.sum(want))!r}, reference {complex(e_cell)!r}'))
     if np.max(np.abs(E - want)) > etol:
-        same_dims = all(lat.mps_sites()[(i - 1) % N].dim == lat.mps_sites()[(i + 1) % N].dim for i in range(N))
-        if same_dims and np.max(np.abs(E - shifted)) <= etol:
+        same_dims = all(lat.mps_sites()[i].dim == lat.mps_sites()[(i + 1) % N].dim for i in range(N))
+        shifted = None
+        if same_dims:
+            shifted = np.array([np.trace(cm.rho_window_dense(psi, 2, first=i) @ cm.bond_dense(H_bond[i]))
+                                if H_bond[i] is not None else 0.0 for i in range(N)])
+        if shifted is not None and np.max(np.abs(E - shifted)) <= etol:
             fails.append(('property', 'energy.bond_energies.infinite.evaluated_on_sites_i_i+1',
                           f'bond_energies = {np.round(E, 8).tolist()} are <H_bond[i]> on sites (i, i+1); on the documented '
                           f'sites (i-1, i): {np.round(want, 8).tolist()}; sum {complex(np.sum(E))!r} vs energy per unit cell '
@@ -458,6 +472,12 @@ def check_case(case, lean_out, real=None, use_model=True):
                 sig = 'dense.grouped.GroupedSite_charge_to_JW_parity_list'
             if name == 'bond_from_mpo' and isinstance(rep, AttributeError) and 'explicit_plus_hc' in str(rep):
                 sig = 'dense.bond_from_mpo.mpomodel_without_explicit_plus_hc'
+            if name == 'bond_from_mpo' and isinstance(rep, ValueError) and "didn't capture everything" in str(rep) \
+                    and (M.H_MPO.max_range is None or M.H_MPO.max_range > 1):
+                # legitimate refusal: the MPO has a path over more than two sites (e.g. a multi-site term whose outer
+                # operator is 'Id': nearest-neighbour as an operator, and for calc_H_bond, but not as an MPO graph)
+                facts['bond_from_mpo_refused_long_range_graph'] = True
+                continue
             if name == 'grouped_segment' and isinstance(rep, ZeroDivisionError):
                 sig = 'dense.grouped_segment.extract_segment_after_group_sites'
             fails.append(('property', sig, f'{name}: {rep!r}'))
